@@ -1,6 +1,8 @@
 mod engine;
 mod gen;
+mod props;
 mod proto;
+mod sweeps;
 
 use engine::*;
 use gen::*;
@@ -33,8 +35,11 @@ pub struct Opts {
     pub out: String,
     pub replay_dir: String,
     pub tmp: String,
+    pub known: String,
     pub threads: usize,
     pub n: usize,
+    pub replay: String,
+    pub profile: String,
 }
 
 fn parse_opts() -> Opts {
@@ -47,8 +52,11 @@ fn parse_opts() -> Opts {
         out: String::new(),
         replay_dir: "/verif/evidence/replay".into(),
         tmp: "/verif/work".into(),
+        known: "/verif/known_findings.txt".into(),
         threads: 16,
         n: 0,
+        replay: String::new(),
+        profile: "checked".into(),
     };
     let mut i = 2;
     while i < a.len() {
@@ -60,8 +68,11 @@ fn parse_opts() -> Opts {
             "--out" => o.out = v,
             "--replay-dir" => o.replay_dir = v,
             "--tmp" => o.tmp = v,
+            "--known" => o.known = v,
             "--threads" => o.threads = v.parse().unwrap_or(16),
             "--n" => o.n = v.parse().unwrap_or(0),
+            "--replay" => o.replay = v,
+            "--profile" => o.profile = v,
             _ => {}
         }
         i += 2;
@@ -106,16 +117,437 @@ fn explore(o: &Opts, out: &mut dyn Write) {
     }
 }
 
+// ------------------------------------------------------------------------------------------
+// text -> Cmd (replays, corpus)
+// ------------------------------------------------------------------------------------------
+fn hx(s: &str) -> Option<u32> {
+    u32::from_str_radix(s, 16).ok()
+}
+
+fn parse_regctl(t: &[&str], s: &mut St) -> Option<()> {
+    if t.len() < 10 || t[0].len() != 28 || t[3].len() != 16 {
+        return None;
+    }
+    for i in 0..14 {
+        s.regs[i] = u8::from_str_radix(&t[0][2 * i..2 * i + 2], 16).ok()?;
+    }
+    s.sp = hx(t[1])? as u16;
+    s.pc = hx(t[2])? as u16;
+    for i in 0..8 {
+        s.alt[i] = u8::from_str_radix(&t[3][2 * i..2 * i + 2], 16).ok()?;
+    }
+    s.halt = t[4] == "1";
+    s.int = if t[5] == "--" { None } else { Some(hx(t[5])? as u8) };
+    s.nmi = t[6] == "1";
+    s.im = hx(t[7])? as u8;
+    s.iff1 = t[8] == "1";
+    s.iff2 = t[9] == "1";
+    Some(())
+}
+
+pub fn parse_cmd(line: &str) -> Option<Cmd> {
+    let t: Vec<&str> = line.split_whitespace().collect();
+    let a16 = |i: usize| -> Option<u16> { Some(hx(t.get(i)?)? as u16) };
+    match *t.first()? {
+        "S" => {
+            let mut s = St::default();
+            parse_regctl(&t[1..], &mut s)?;
+            let d = t.get(11)?.as_bytes();
+            for i in 0..4 {
+                s.dbg[i] = *d.get(i)? == b'1';
+            }
+            s.sdur = hx(t.get(12)?)?;
+            s.smax = hx(t.get(13)?)?;
+            s.scur = hx(t.get(14)?)?;
+            s.top = hx(t.get(15)?)? as u16;
+            let rom = *t.get(16)?;
+            s.rom = if rom == "-" {
+                None
+            } else {
+                let mut p = rom.split(':');
+                Some((hx(p.next()?)? as u16, hx(p.next()?)? as u16))
+            };
+            s.seed = hx(t.get(17)?)?;
+            for o in t.iter().skip(19) {
+                let mut p = o.split(':');
+                s.ovr.push((hx(p.next()?)? as u16, hx(p.next()?)? as u8));
+            }
+            Some(Cmd::S(Box::new(s)))
+        }
+        "P" => {
+            let mut s = St::default();
+            parse_regctl(&t[1..], &mut s)?;
+            Some(Cmd::P(Box::new(s)))
+        }
+        "X" => Some(Cmd::X),
+        "T" => Some(Cmd::T),
+        "D" => Some(Cmd::D),
+        "N" => Some(Cmd::N),
+        "I" => Some(Cmd::I(hx(t.get(1)?)? as u8)),
+        "WB" => Some(Cmd::WB(a16(1)?, hx(t.get(2)?)? as u8)),
+        "WW" => Some(Cmd::WW(a16(1)?, a16(2)?)),
+        "RB" => Some(Cmd::RB(a16(1)?)),
+        "RW" => Some(Cmd::RW(a16(1)?)),
+        "RLW" => Some(Cmd::RLW(a16(1)?)),
+        "RLD" => Some(Cmd::RLD(a16(1)?)),
+        "ROM" => Some(Cmd::ROM(a16(1)?, a16(2)?)),
+        "SL" => Some(Cmd::SL(hx(t.get(1)?)? as usize, hx(t.get(2)?)? as usize)),
+        "CL" => Some(Cmd::CL(hx(t.get(1)?)? as usize, hx(t.get(2)?)? as usize)),
+        "LB" => {
+            let len = if *t.get(2)? == "missing" { None } else { Some(hx(t.get(2)?)? as usize) };
+            Some(Cmd::LB(a16(1)?, len, hx(t.get(3)?)?))
+        }
+        "DA" => Some(Cmd::DA(a16(1)?)),
+        "SD" => Some(Cmd::SD(hx(t.get(1)?)?)),
+        "SP16" => Some(Cmd::SetPair(hx(t.get(1)?)? as u8, a16(2)?)),
+        _ => None,
+    }
+}
+
+/// replay file -> the case it holds (script lines between "script:" and "end-script")
+fn load_replay(path: &str) -> Option<Case> {
+    let txt = std::fs::read_to_string(path).ok()?;
+    let mut c = Case::new("replay".into());
+    let mut on = false;
+    for l in txt.lines() {
+        if l.starts_with("script:") {
+            on = true;
+            continue;
+        }
+        if l.starts_with("end-script") {
+            break;
+        }
+        if on {
+            if let Some(cmd) = parse_cmd(l) {
+                c.push(cmd, Proj { r: false, dbg: 1, ..FULL });
+            }
+        }
+    }
+    Some(c)
+}
+
+fn jstr(s: &str) -> String {
+    let mut o = String::from("\"");
+    for ch in s.chars() {
+        match ch {
+            '"' => o.push_str("\\\""),
+            '\\' => o.push_str("\\\\"),
+            '\n' => o.push_str("\\n"),
+            '\t' => o.push_str("\\t"),
+            c if (c as u32) < 0x20 => o.push_str(&format!("\\u{:04x}", c as u32)),
+            c => o.push(c),
+        }
+    }
+    o.push('"');
+    o
+}
+
+struct Known {
+    findings: Vec<(String, String, String)>, // property, key, text
+}
+
+fn load_known(path: &str) -> Known {
+    let mut k = Known { findings: vec![] };
+    if let Ok(t) = std::fs::read_to_string(path) {
+        for l in t.lines() {
+            let l = l.trim();
+            if let Some(rest) = l.strip_prefix("finding:") {
+                let mut prop = String::new();
+                let mut key = String::new();
+                for tok in rest.split_whitespace() {
+                    if let Some(p) = tok.strip_prefix("property=") {
+                        prop = p.to_string();
+                    }
+                    if let Some(p) = tok.strip_prefix("key=") {
+                        key = p.to_string();
+                    }
+                }
+                k.findings.push((prop, key, rest.trim().to_string()));
+            }
+        }
+    }
+    k
+}
+
+fn run_property(o: &Opts, out: &mut dyn Write) -> i32 {
+    let t0 = std::time::Instant::now();
+    let mut rng = Rng::new(o.seed ^ 0xC0FFEE);
+    let prop = o.prop.as_str();
+    let mut total = Stats::default();
+    let mut sweep_info: Vec<String> = vec![];
+    let mut sweep_evals: u64 = 0;
+    let mut exhaustive = false;
+
+    // corpus of minimized past disagreements runs first
+    let corpus_dir = format!("/verif/corpus/{}", prop);
+    let mut corpus_cases = vec![];
+    if let Ok(rd) = std::fs::read_dir(&corpus_dir) {
+        let mut files: Vec<_> = rd.filter_map(|e| e.ok()).map(|e| e.path()).collect();
+        files.sort();
+        for f in files {
+            if let Some(mut c) = load_replay(f.to_str().unwrap_or("")) {
+                c.tag = format!("corpus/{}", f.file_name().and_then(|x| x.to_str()).unwrap_or("?"));
+                c.key = c.tag.clone();
+                corpus_cases.push(c);
+            }
+        }
+    }
+    let ncorpus = corpus_cases.len();
+    if !corpus_cases.is_empty() {
+        total.merge(run_cases(&o.drv, &o.tmp, corpus_cases, o.threads));
+    }
+
+    let cases: Vec<Case> = match prop {
+        "C01" => props::c01(&mut rng, &o.tier),
+        "C02" => props::c02(&mut rng, &o.tier),
+        "C03" => props::c03(&mut rng, &o.tier),
+        "C04" => props::c04(&mut rng, &o.tier),
+        "C05" => props::c05(&mut rng, &o.tier),
+        "C06" => props::c06(&mut rng, &o.tier),
+        "C07" => props::c07(&mut rng, &o.tier),
+        "C08" => props::c08(&mut rng, &o.tier),
+        "C09" => props::c09(&mut rng, &o.tier),
+        "C10" => props::c10(&mut rng, &o.tier),
+        "C11" => props::c11(&mut rng, &o.tier),
+        "C12" => props::c12(&mut rng, &o.tier),
+        "C13" => props::c13(&mut rng, &o.tier),
+        "C14" => props::c14(&mut rng, &o.tier),
+        "C15" => props::c15(&mut rng, &o.tier),
+        "C16" => props::c16(&mut rng, &o.tier),
+        "C17" => props::c17(&mut rng, &o.tier),
+        "C18" => props::c18(&mut rng, &o.tier),
+        "C19" => props::c19(&mut rng, &o.tier),
+        "C20" => props::c20(&mut rng, &o.tier),
+        _ => {
+            writeln!(out, "unknown property {}", prop).unwrap();
+            return 2;
+        }
+    };
+    if matches!(prop, "C09") && o.tier == "thorough" {
+        exhaustive = true;
+    }
+    // big case lists are processed in slices to bound memory
+    let mut it = cases.into_iter().peekable();
+    while it.peek().is_some() {
+        let batch: Vec<Case> = it.by_ref().take(60_000).collect();
+        total.merge(run_cases(&o.drv, &o.tmp, batch, o.threads));
+    }
+
+    if prop == "C02" {
+        // exhaustive sweeps, hashed per block; quick: every block of the arithmetic cores and
+        // every single-block sweep, 1/8 of the blocks of the rest; thorough: everything
+        exhaustive = o.tier == "thorough";
+        let mut jobs: Vec<(usize, u8)> = vec![];
+        for (si, sw) in sweeps::SWEEPS.iter().enumerate() {
+            for b in sweeps::blocks_of(sw) {
+                let dense = matches!(sw.name, "add" | "adc" | "sub" | "sbc" | "cp") || sw.kind == "af" || sw.kind == "bf";
+                if o.tier == "thorough" || dense || (b as u64 + o.seed) % 8 == 0 || matches!(b, 0x00 | 0x7F | 0x80 | 0xFF) {
+                    jobs.push((si, b));
+                }
+            }
+        }
+        // model side: one driver process per thread, jobs interleaved
+        let nthreads = o.threads.max(1);
+        let results = std::sync::Mutex::new(Vec::new());
+        std::thread::scope(|s| {
+            for t in 0..nthreads {
+                let jobs = &jobs;
+                let results = &results;
+                let drv = &o.drv;
+                s.spawn(move || {
+                    let mine: Vec<(usize, u8)> = jobs.iter().copied().skip(t).step_by(nthreads).collect();
+                    if mine.is_empty() {
+                        return;
+                    }
+                    let input: String = mine.iter().map(|(si, b)| format!("SW {} {:02X}\n", sweeps::SWEEPS[*si].name, b)).collect();
+                    let model = run_driver(drv, input);
+                    let mut outv = vec![];
+                    for (j, (si, b)) in mine.iter().enumerate() {
+                        let imp = sweeps::imp_block(&sweeps::SWEEPS[*si], *b);
+                        let m = model.get(j).cloned().unwrap_or_default();
+                        outv.push((*si, *b, imp, m));
+                    }
+                    results.lock().unwrap().extend(outv);
+                });
+            }
+        });
+        let mut bad: Vec<(usize, u8)> = vec![];
+        let mut per: BTreeMap<&str, (u64, u64)> = BTreeMap::new();
+        for (si, b, imp, m) in results.into_inner().unwrap() {
+            let sw = &sweeps::SWEEPS[si];
+            let e = per.entry(sw.name).or_insert((0, 0));
+            e.0 += 1;
+            e.1 += sweeps::evals_per_block(sw);
+            sweep_evals += sweeps::evals_per_block(sw);
+            let ok = match &imp {
+                Ok(h) => format!("H {:016X}", h) == m,
+                Err(_) => false,
+            };
+            if !ok {
+                bad.push((si, b));
+            }
+        }
+        for (name, (blocks, evals)) in &per {
+            sweep_info.push(format!("{}: {} blocks, {} triples", name, blocks, evals));
+        }
+        bad.sort();
+        // expand the first differing blocks into ordinary cases to get the failing input
+        for (si, b) in bad.iter().take(3) {
+            let mut cs = sweeps::expand_block(&sweeps::SWEEPS[*si], *b);
+            for c in cs.iter_mut() {
+                c.key = format!("sweep:{}", sweeps::SWEEPS[*si].name);
+            }
+            let st = run_cases(&o.drv, &o.tmp, cs, o.threads);
+            if st.mismatch_count == 0 {
+                // hash differs but no case does: report as broken correspondence
+                total.mismatch_count += 1;
+                total.mismatches.push(Mismatch {
+                    tag: format!("sweep:{}", sweeps::SWEEPS[*si].name),
+                    key: format!("sweep:{}", sweeps::SWEEPS[*si].name),
+                    script: format!("SW {} {:02X}", sweeps::SWEEPS[*si].name, b),
+                    line_no: 0,
+                    cmd: "SW".into(),
+                    imp: "hash differs".into(),
+                    model: "hash differs".into(),
+                    what: "no-failing-input-found".into(),
+                    oracle: false,
+                });
+            }
+            total.merge(st);
+        }
+    }
+
+    // classify
+    let known = load_known(&o.known);
+    std::fs::create_dir_all(&o.replay_dir).ok();
+    let mut violations = 0;
+    let mut known_hits: BTreeMap<String, u64> = BTreeMap::new();
+    let mut printed: BTreeMap<String, u32> = BTreeMap::new();
+    let mut vio_lines = vec![];
+    for (i, m) in total.mismatches.iter().enumerate() {
+        if let Some(k) = known
+            .findings
+            .iter()
+            .find(|(p, key, _)| p == prop && m.oracle && (m.key == *key || m.key.starts_with(&format!("{}/", key))))
+        {
+            *known_hits.entry(k.2.clone()).or_insert(0) += 1;
+            continue;
+        }
+        violations += 1;
+        let n = printed.entry(m.key.clone()).or_insert(0);
+        *n += 1;
+        if *n > 1 || vio_lines.len() >= 12 {
+            continue;
+        }
+        let path = format!("{}/{}-{}-{}-{}.case", o.replay_dir, prop, o.tier, o.seed, i);
+        let nf = m.what.contains("no-failing-input-found");
+        let body = format!(
+            "property: {}\nclass: {}\nwhat: {}\nkind: {}\nprofile: {}\nat: request #{} `{}`\nimplementation: {}\nmodel/oracle:   {}\n{}script:\n{}\nend-script\n",
+            prop,
+            m.tag,
+            m.what,
+            if m.oracle {
+                "the implementation contradicts the property's oracle on its own behaviour"
+            } else {
+                "the implementation differs from the proved model on an observable the property constrains"
+            },
+            o.profile,
+            m.line_no,
+            m.cmd,
+            m.imp,
+            m.model,
+            if nf { format!("no-failing-input-found: correspondence sweep `{}` no longer checks\n", m.tag) } else { String::new() },
+            m.script
+        );
+        std::fs::write(&path, body).ok();
+        vio_lines.push(format!("VIOLATION property={} replay={}{}", prop, path, if nf { " no-failing-input-found" } else { "" }));
+    }
+    // mismatches beyond the stored cap count as violations as well
+    let unstored = total.mismatch_count.saturating_sub(total.mismatches.len() as u64);
+    for l in &vio_lines {
+        writeln!(out, "{}", l).unwrap();
+    }
+    for (k, n) in &known_hits {
+        writeln!(out, "KNOWN-FINDING: {} ({} cases this run)", k, n).unwrap();
+    }
+    // evidence fragment
+    let wall = t0.elapsed().as_secs_f64();
+    let mut j = String::from("{\n");
+    j.push_str(&format!("  \"cases\": {},\n", total.cases));
+    j.push_str(&format!("  \"lines\": {},\n", total.lines));
+    j.push_str(&format!("  \"evaluations\": {},\n", total.lines + sweep_evals));
+    j.push_str(&format!("  \"distinct_classes\": {},\n", total.tags.len()));
+    j.push_str(&format!("  \"distinct_nontrivial\": {},\n", total.nontrivial.len()));
+    j.push_str(&format!("  \"relations_checked_on_impl\": {},\n", total.relations));
+    j.push_str(&format!("  \"aborts\": {},\n", total.panics));
+    j.push_str(&format!("  \"disagreements_model\": {},\n", total.mismatch_count - total.oracle_count));
+    j.push_str(&format!("  \"violations_oracle\": {},\n", total.oracle_count));
+    j.push_str(&format!("  \"violations\": {},\n", violations + unstored));
+    j.push_str(&format!("  \"known_findings_hit\": {},\n", known_hits.values().sum::<u64>()));
+    j.push_str(&format!("  \"corpus_cases\": {},\n", ncorpus));
+    j.push_str(&format!("  \"exhaustive\": {},\n", exhaustive));
+    j.push_str(&format!("  \"profile\": {},\n", jstr(&o.profile)));
+    j.push_str(&format!("  \"sweeps\": [{}],\n", sweep_info.iter().map(|s| jstr(s)).collect::<Vec<_>>().join(", ")));
+    j.push_str(&format!("  \"samples\": [{}],\n", total.samples.iter().map(|s| jstr(s)).collect::<Vec<_>>().join(", ")));
+    j.push_str(&format!("  \"wall_s\": {:.2}\n}}\n", wall));
+    if !o.out.is_empty() {
+        std::fs::write(&o.out, j).ok();
+    }
+    writeln!(
+        out,
+        "{} {} seed={} profile={}: {} cases, {} replies compared, {} relations, {} sweep evaluations, {} aborts, {} disagreements ({} oracle), {} known, {:.1}s",
+        prop,
+        o.tier,
+        o.seed,
+        o.profile,
+        total.cases,
+        total.lines,
+        total.relations,
+        sweep_evals,
+        total.panics,
+        total.mismatch_count,
+        total.oracle_count,
+        known_hits.values().sum::<u64>(),
+        wall
+    )
+    .unwrap();
+    if violations > 0 || unstored > 0 {
+        1
+    } else {
+        0
+    }
+}
+
+fn replay(o: &Opts, out: &mut dyn Write) -> i32 {
+    let Some(c) = load_replay(&o.replay) else {
+        writeln!(out, "cannot read {}", o.replay).unwrap();
+        return 2;
+    };
+    let st = run_chunk(&o.drv, &o.tmp, &[c]);
+    for m in &st.mismatches {
+        writeln!(out, "at request #{} `{}`: {}\n  implementation: {}\n  model:          {}", m.line_no, m.cmd, m.what, m.imp, m.model).unwrap();
+    }
+    writeln!(out, "replayed {} requests: {} disagreement(s), {} abort(s)", st.lines, st.mismatch_count, st.panics).unwrap();
+    if st.mismatch_count > 0 {
+        1
+    } else {
+        0
+    }
+}
+
 fn main() {
     let mut out = steal_stdout();
     std::panic::set_hook(Box::new(|_| {}));
     let o = parse_opts();
     std::fs::create_dir_all(&o.tmp).ok();
-    match o.prop.as_str() {
-        "explore" => explore(&o, &mut out),
-        _ => {
-            writeln!(out, "unknown mode {}", o.prop).unwrap();
-            std::process::exit(2);
+    let rc = match o.prop.as_str() {
+        "explore" => {
+            explore(&o, &mut out);
+            0
         }
-    }
+        "replay" => replay(&o, &mut out),
+        _ => run_property(&o, &mut out),
+    };
+    out.flush().ok();
+    std::process::exit(rc);
 }
